@@ -68,8 +68,9 @@ class TopGen:
                     self.textcmds.append((owner, name, None, ""))
                     self.fmtcmds[name] = (text, mx if mx else FMT_FONT["maxLineLength"], ov if ov else FMT_FONT["cursorOverlapWidth"], nl if nl else FMT_FONT["numLines"])
                 elif r.random() < 0.7:
-                    pool = ["shared text", "other", "x"]
+                    pool = ["shared text", "other", "x"] + (["KT_BASE", "KT_VAR"] if self.tconsts else [])
                     content = r.choice(pool) if r.random() < 0.5 else gen_content(r)
+                    if content.startswith("KT_"): self.used_consts = True       # the text spells a constant's name: still text
                     if r.random() < 0.15 and content: content += "\nsecond line"
                     typ = r.choice(TEXT_TYPES)
                     pre_arg = "F(1, 2), " if r.random() < 0.2 else ""       # a comma inside parentheses before the text
@@ -170,6 +171,8 @@ class TopGen:
                     used.add(typ); y = r.random()
                     if y < 0.35:
                         tgt = "Ext_" + typ if r.random() < 0.7 else "Ext_shared"      # two entries may name the same script
+                        inl = [e[2] for e in ents if e[0] == "inline"] + [rw[3] for e in ents if e[0] == "table" for rw in e[3] if rw[0] == "inline"]
+                        if inl and r.random() < 0.5: tgt = r.choice(inl)     # ... or an inline script of this very statement, through its generated name
                         ents.append(("plain", typ, tgt)); s += "  %s: %s\n" % (typ, tgt)
                     elif y < 0.7:
                         owner = "%s_%s" % (name, typ); _, _, body, labels = self.script(name=owner)
@@ -183,8 +186,13 @@ class TopGen:
                                 vsrc, vexp = r.choice([("KT_VAR", "VAR_T5"), ("KT_VAR + 1", "VAR_T5 + 1"), ("VAR_T", "VAR_T")])
                                 csrc, cexp = r.choice([("KT_BASE + %d" % j, "10 + %d" % j), ("KT_BASE", "10"), ("( KT_BASE + 2 ) * %d" % j, "( 10 + 2 ) * %d" % j)])
                                 self.used_consts = True
+                            elif r.random() < 0.15:
+                                vsrc, vexp, csrc, cexp = r.choice([("VAR_T", "VAR_T", "%d %% 4" % (j + 5), "%d %% 4" % (j + 5)), ("VAR_T + S % 2", "VAR_T + S % 2", str(j), str(j)), ("VAR_T", "VAR_T", "%d", "% d")])
                             if r.random() < 0.5:
-                                rows.append(("plain", vexp, cexp, "Ext_row%d" % j)); s += "    %s, %s: Ext_row%d\n" % (vsrc, csrc, j)
+                                rtgt = "Ext_row%d" % j
+                                inl = [e[2] for e in ents if e[0] == "inline"] + [rw[3] for rw in rows if rw[0] == "inline"]
+                                if inl and r.random() < 0.4: rtgt = r.choice(inl)      # the generated name of an inline script of this statement
+                                rows.append(("plain", vexp, cexp, rtgt)); s += "    %s, %s: %s\n" % (vsrc, csrc, rtgt)
                             else:
                                 owner = "%s_%s_%d" % (name, typ, j); _, _, body, labels = self.script(name=owner)
                                 rows.append(("inline", vexp, cexp, owner, body, labels)); s += "    %s, %s {\n%s    }\n" % (vsrc, csrc, p_block(body, 3))
@@ -505,6 +513,7 @@ def gen_C09(rnd, n, tier):
         for _ in range(nparts):
             p = gen_content(rnd)
             if rnd.random() < 0.1: p = ""
+            elif rnd.random() < 0.08: p = rnd.choice(["YES", "K_1", "FLAG_X", "Hello$", "msgbox"])
             parts.append(p)
         # newline + indentation inside a part becomes one space
         srcparts = []; vals = []
@@ -544,6 +553,8 @@ def gen_C09(rnd, n, tier):
         elif origin == "inline": src = "script S {\n  msgbox(%s)\n}\n" % lit; label = "S_Text_0"
         elif origin == "pory": src = "text T {\n  poryswitch(V) { A: %s _: \"other\" }\n}\n" % lit; label = "T"
         else: src = "text T {\n  poryswitch(V) { Q: \"other\" _ { %s } }\n}\n" % lit; label = "T"
+        if re.fullmatch(r"[A-Za-z_]\w*\$?", value) and rnd.random() < 0.7:
+            src = "const %s = %s\n" % (value.rstrip("$"), rnd.choice(["1", "VAR_9", "2 + 3"])) + src       # the text spells a constant's name: still text
         out.append(Case(compile_line(cfg, src), src, cfg, {"value": terminated(value, typ), "typ": typ, "label": label, "origin": origin}))
     return out
 
@@ -937,7 +948,7 @@ def gen_C12(rnd, n, tier):
         # constants named like case labels or like the switch value: they never take part in case selection
         pre = rnd.choice(["", "", "const A = 1\nconst B = ZZ\n", "const ZZ = A\nconst C9 = B\n", "const V = B\n"])
         src_w = pre + src_w
-        for sw in ["A", "B", "ZZ"]:
+        for sw in ["A", "B", "ZZ"] + ([""] if i % 3 == 0 else []):
             sel = [f(sw) for f in tops_s]
             if pre and not any(x is None for x in sel): sel = [pre.rstrip("\n")] + sel
             cfg = repo_cfg(switches={"V": sw}, optimize=True)
@@ -999,6 +1010,8 @@ def gen_C13(rnd, n, tier):
             lambda: "if (random(%s) == %s) { r }" % (u(), u()),
             lambda: "applymovement(%s, moves(walk_up))" % u(),
             lambda: "foo((%s + 2) * %s)" % (u(), u()),
+            lambda: "foo(%s (%s + 1), %s(3))" % (u(), u(), u()),
+            lambda: "bar(VAR_X, (%s) + %s 5)" % (u(), u()),
             lambda: "if (flag(FLAG_BASE + %s)) { a }" % u(),
             lambda: "if (var(VAR_BASE + %s) == %s) { a }" % (u(), u()),
             lambda: "if (!defeated(%s + 1) || flag(%s - BASE)) { a }" % (u(), u()),
